@@ -75,6 +75,11 @@ def accepts_all_sizes(rep, f, facts, name):
 
 
 def run(prog, rep, tier):
+    # the factories only *read* their parameters: `var **= 0.5` on a 0-d array argument rewrites the caller's object, and every
+    # sampler built from it afterwards (and before!) sees the changed value
+    from .common import no_foreign_writes
+    for name in SPEC:
+        no_foreign_writes(rep, prog, NO + name, rule="OWN." + name)
     dc = deepcopied_by_anm(prog)
     for name, (target, slots, defaults) in SPEC.items():
         S, f, clo, res, facts = factory_closure(prog, NO + name)
